@@ -18,7 +18,7 @@ S-expression encoding (names raw, keys / scalar texts hex with prefix `x`):
   EXP   = (lit JV) | (arr EXP*) | (map (kv XKEY EXP)*) | (st (kv XKEY EXP)*) | (self PARAM NAME*) | (ref CALL NAME*)
   JV    = n | (a XTEXT) | (l JV*) | (o (kv XKEY JV)*)
   obs   = (obs (outs (inst KEY JV)*) (jobs JOB*) (joins JOIN*) (top JV) (skip NAME*))
-  KEY   = (path NAME*) (forks (f CALLID (i N) | (k XKEY))*)
+  KEY   = (path NAME*) (forks (f CALLID (i N) | (k XKEY) | (u))*)      -- (u) = undetermined part
   JOB   = (job XJOBKEY stage KEY JVargs) | (job XJOBKEY chunk KEY JVargs JVchunkdef)
   JOIN  = (join XJOBKEY JVobsChunkDefs (l JVdef*) JVobsChunkOuts (l JVouts*))
 -/
@@ -148,6 +148,7 @@ def pKey : SX → SX → Option InstKey
       match f with
       | .l [.a "f", .a c, .l [.a "i", .a n]] => do pure (c, Idx.i (← n.toNat?))
       | .l [.a "f", .a c, .l [.a "k", .a k]] => do pure (c, Idx.k (← unhexStr k))
+      | .l [.a "f", .a c, .l [.a "u"]] => some (c, Idx.none)
       | _ => none
     pure ⟨(← names ps), forks⟩
   | _, _ => none
@@ -213,6 +214,12 @@ def renderKey (k : InstKey) : String :=
   ".".intercalate k.path ++ "[" ++ ",".intercalate (k.forks.map fun f =>
     f.1 ++ "=" ++ (match f.2 with | .i n => toString n | .k s => quote s | .none => "-")) ++ "]"
 
+/-- observed fork part `a` against den's `b`: equal, or `b` is the "no element"
+placeholder of a mapped call over an empty collection (the run-time then names
+the part arbitrarily: undetermined, or index 0) -/
+def partMatch (a b : String × Idx) : Bool :=
+  a.1 == b.1 && (a.2 == b.2 || b.2 == Idx.none)
+
 /-- The run-time does not fork a stage over an enclosing mapped call when none of
 its inputs depends on the split value: one observed fork then stands for every
 index.  An observed fork (its parts = a sub-list of the enclosing mapped calls)
@@ -221,7 +228,7 @@ instance's fork list. -/
 def subList : List (String × Idx) → List (String × Idx) → Bool
   | [], _ => true
   | _ :: _, [] => false
-  | a :: as, b :: bs => if a == b then subList as bs else subList (a :: as) bs
+  | a :: as, b :: bs => if partMatch a b then subList as bs else subList (a :: as) bs
 
 def covers (obs inst : InstKey) : Bool :=
   obs.path == inst.path && subList obs.forks inst.forks
@@ -268,7 +275,8 @@ def checkAll (P : Program) (obs : Obs) : List String × Nat :=
     | j :: js =>
       -- all the jobs covering one instance must belong to one observed fork
       if js.all (fun j' => j'.inst == j.inst) then none
-      else some (mkDiff "ambiguous-instance" (renderKey i.key) "" i.args .null)
+      else some (mkDiff (if i.optional then "forks-under-empty-map" else "ambiguous-instance")
+        (renderKey i.key) "" i.args .null)
   let joinDiffs := obs.joins.flatMap fun j =>
     (if (joinChunkDefs (j.defs.map fieldsOf)).matches j.obsDefs then []
      else [mkDiff "chunk-defs" j.key "_chunk_defs" (joinChunkDefs (j.defs.map fieldsOf)) j.obsDefs]) ++
